@@ -14,6 +14,13 @@ def paths(pid, n):
     if not os.path.isdir(src):
         src = "/tmp/seed-%s/out/%s" % (pid, n)
     wt = "/tmp/seed-%s/wt" % pid
+    try:
+        import re
+        m = re.search(r"(/tmp/seed2?-C\d+/wt)", open(src + "/demo.py").read())
+        if m:
+            wt = m.group(1)
+    except OSError:
+        pass
     if not os.path.isdir(wt):
         sh("git -C /repo worktree add -q --detach %s HEAD" % wt)
     return src, wt
